@@ -32,7 +32,7 @@ def handle (ss : Sessions) (toks : List String) : String × Sessions :=
     | some (r, s) => (r, { ss with join := s, sched := none, limit := none })
     | none => ("bad-op", { ss with join := none })
   | _ =>
-    match DriverPure.op toks with
+    match (DriverPure.op toks).orElse (fun _ => DriverJoin.batchOp toks) with
     | some r => (r, ss)
     | none =>
       match ss.sched with
